@@ -111,6 +111,9 @@ def run(ctx):
                       "dict from a dict subclass -- shared with R03.c", floor=1)
     from checks.shared import comparator_model
     comparator_model(ctx, "R18.q")
+    ctx.rule("R18.r", "selector model, get_range: asked twice with a length-preserving in-place mutation of the objects in between, get_range describes the objects as they are at each call", floor=1)
+    from checks import selector_model as _sm
+    _sm.get_range_model(ctx, "R18.r")
     ctx.not_decided += ["consistency after arbitrary mutation sequences (follows from per-mutator pairing but is not executed)",
                         "list mutators that ListProxy does not override (sort, reverse, __delitem__, +=) -- reported as informational"]
     cls = ctx.repo.cls(LP)
